@@ -884,7 +884,9 @@ pub fn install_log_sink() {
             // spans stay at INFO: the crate's DEBUG span of the connection task records `tokio::task::id()`, which panics when
             // the task future is polled outside a tokio task (simnet's executor, a plain block_on) - an artefact of where the
             // harness polls, noted in DESIGN.md, not a statement of any property
-            if m.is_span() && rank(m.level()) > 3 {
+            // (only that span - recognised by its `task_id` field - is held back; every other DEBUG/TRACE span, including the
+            // `ret` events of #[instrument], is evaluated like an event)
+            if m.is_span() && rank(m.level()) > 3 && m.fields().field("task_id").is_some() {
                 return false;
             }
             rank(m.level()) <= LOG_LEVEL_TL.with(|l| l.get()).max(LOG_LEVEL_GLOBAL.load(std::sync::atomic::Ordering::Relaxed))
